@@ -1,56 +1,3 @@
-(* GENERATED by tools/translate_mem.py from anyio/streams/memory.py in /repo's source on every run of bin/check C12 / C13. *)
-From AV Require Import Base MemStream MemImp.
-
-Definition snd_send_nowait_entry : stmt :=
-  (SSeq (SIf CClosed (SRaise EClosed) SSkip) (SSeq (SIf (CNot (CNot COpenRecvZero)) (SRaise EBroken) SSkip) (SSeq (SWhileRecvs (SSeq SPopRecv (SIf (CNot CRecvPending) (SSeq SSetItem (SSeq SEventSet SReturn)) SSkip))) (SIf CBufferRoom SBufAppend (SRaise EWouldBlock))))).
-
-Definition snd_send_ck_resumed : stmt :=
-  (STry (SCall snd_send_nowait_entry) EWouldBlock (SSeq SNewEvent (SSeq SSenderSet (SSeq (SSuspend AwEvent) (SIf CInSenders (SSeq SDelSender (SRaise EBroken)) SSkip)))) SSkip).
-
-Definition snd_send_ck_cancelled : stmt :=
-  SReraise.
-
-Definition snd_send_event_resumed : stmt :=
-  (SIf CInSenders (SSeq SDelSender (SRaise EBroken)) SSkip).
-
-Definition snd_send_event_cancelled : stmt :=
-  (SSeq SPopSenderKey (SRaise ECancelled)).
-
-Definition snd_send_entry : stmt :=
-  (SSeq (SSuspend AwCheckpoint) (STry (SCall snd_send_nowait_entry) EWouldBlock (SSeq SNewEvent (SSeq SSenderSet (SSeq (SSuspend AwEvent) (SIf CInSenders (SSeq SDelSender (SRaise EBroken)) SSkip)))) SSkip)).
-
-Definition snd_clone_entry : stmt :=
-  (SSeq (SIf CClosed (SRaise EClosed) SSkip) SReturnNewSend).
-
-Definition snd_close_entry : stmt :=
-  (SIf (CNot CClosed) (SSeq SSetClosed (SSeq SDecOpenSend (SIf COpenSendZero (SSeq SSnapRecvKeys (SSeq SClearRecvs (SForKeys SEventSet))) SSkip))) SSkip).
-
-Definition rcv_receive_nowait_entry : stmt :=
-  (SSeq (SIf CClosed (SRaise EClosed) SSkip) (SSeq (SIf (CAnd (CNot CBufferNonEmpty) (CNot (CNot COpenSendZero))) (SRaise EEnd) SSkip) (SSeq (SIf CSendsNonEmpty (SSeq SPopSender (SSeq SBufAppend SEventSet)) SSkip) (SSeq (SIf CBufferNonEmpty SReturnPopleft SSkip) (SRaise EWouldBlock))))).
-
-Definition rcv_receive_ck_resumed : stmt :=
-  (STry (SReturnCall rcv_receive_nowait_entry) EWouldBlock (SSeq SNewEvent (SSeq SNewReceiver (SSeq SRecvSet (SSeq (SSuspend AwEvent) SReturnItemOrEnd)))) SSkip).
-
-Definition rcv_receive_ck_cancelled : stmt :=
-  SReraise.
-
-Definition rcv_receive_event_resumed : stmt :=
-  (SSeq SPopRecvKey SReturnItemOrEnd).
-
-Definition rcv_receive_event_cancelled : stmt :=
-  (SSeq SPopRecvKey SReraise).
-
-Definition rcv_receive_entry : stmt :=
-  (SSeq (SSuspend AwCheckpoint) (STry (SReturnCall rcv_receive_nowait_entry) EWouldBlock (SSeq SNewEvent (SSeq SNewReceiver (SSeq SRecvSet (SSeq (SSuspend AwEvent) SReturnItemOrEnd)))) SSkip)).
-
-Definition rcv_clone_entry : stmt :=
-  (SSeq (SIf CClosed (SRaise EClosed) SSkip) SReturnNewRecv).
-
-Definition rcv_close_entry : stmt :=
-  (SIf (CNot CClosed) (SSeq SSetClosed (SSeq SDecOpenRecv (SIf COpenRecvZero (SSeq SSnapSendKeys (SForKeys SEventSet)) SSkip))) SSkip).
-
-Definition mem_prog : mprog :=
-  mkmprog snd_send_nowait_entry snd_send_entry snd_send_ck_resumed snd_send_ck_cancelled snd_send_event_resumed
-          snd_send_event_cancelled snd_clone_entry snd_close_entry rcv_receive_nowait_entry rcv_receive_entry
-          rcv_receive_ck_resumed rcv_receive_ck_cancelled rcv_receive_event_resumed rcv_receive_event_cancelled
-          rcv_clone_entry rcv_close_entry.
+(* translator refused *)
+From AV Require Import Base MemImp.
+Definition refused : False := "translate_mem REFUSED: rcv_receive: line 118: unsupported await `await checkpoint_if_cancelled()`".
